@@ -161,7 +161,7 @@ def try_refute(prop, v, repo, seed):
     if unit in ("S64", "S32"):
         r = refute_scalar(64 if unit == "S64" else 32, name, repo, seed)
         return r if r is not None else refute_papi(unit, name, repo, seed)
-    if unit in ("ED", "RIS", "MONT", "SG", "SGR", "SM", "SM2", "SIG", "FG", "GRP", "MSM", "VSM", "VMSM", "AVX2E", "AVX2F", "BATCH", "K-SERDE", "RIS2", "SMNT", "BV", "IFMAE", "IFMAF"):
+    if unit in ("ED", "RIS", "MONT", "SG", "SGR", "SM", "SM2", "SIG", "FG", "GRP", "MSM", "VSM", "VMSM", "AVX2E", "AVX2F", "BATCH", "K-SERDE", "RIS2", "SMNT", "BV", "IFMAE", "IFMAF", "TRS", "HW"):
         return refute_papi(unit, name, repo, seed)
     return None
 
@@ -374,7 +374,7 @@ def _scalars(rng, n_random=12):
 
 
 _FAMS = {"ED": ["ed"], "RIS": ["ris"], "MONT": ["mont"], "SG": ["sc"], "S64": ["sc"], "S32": ["sc"], "SGR": ["sc", "edmul"], "SM": ["edmul"], "SM2": ["edmul", "ed"], "MSM": ["edmul"], "VSM": ["edmul"], "VMSM": ["edmul"], "AVX2E": ["ed", "edmul"], "AVX2F": ["ed", "edmul"],
-            "SIG": ["sig", "slices"], "BV": ["sig", "slices"], "K-SERDE": ["serde"], "RIS2": ["ris", "edmul"], "SMNT": ["edmul", "sig"], "IFMAE": ["ed", "edmul"], "IFMAF": ["ed", "edmul"], "GRP": ["grp", "ed", "ris"], "FG": ["ed", "ris"], "F64": ["ed"], "F32": ["ed"]}
+            "SIG": ["sig", "slices"], "BV": ["sig", "slices"], "K-SERDE": ["serde"], "TRS": ["edmul", "sc"], "HW": ["sc", "ris", "ed"], "RIS2": ["ris", "edmul"], "SMNT": ["edmul", "sig"], "IFMAE": ["ed", "edmul"], "IFMAF": ["ed", "edmul"], "GRP": ["grp", "ed", "ris"], "FG": ["ed", "ris"], "F64": ["ed"], "F32": ["ed"]}
 
 
 def families_of(unit):
